@@ -595,12 +595,12 @@ def gen_fan(rng, tiny=False):
     return ops
 
 
-def gen_writes(rng, n, long_pool=None, tiny=False):
+def gen_writes(rng, n, long_pool=None, tiny=False, fan=True):
     """n writes and the resulting mapping (tiny: 1..3-byte values only, so that nodes are embedded)"""
     m, ops = {}, []
     shadow = None
     pick_alphabet(rng)
-    if rng.random() < 0.1:
+    if fan and rng.random() < 0.1:
         ops = gen_fan(rng, tiny)
         for w in ops:
             apply_model(m, w)
